@@ -25,6 +25,7 @@ package policy
 // ---------------------------------------------------------------------------------------------
 // C12 -- IsFailure: the three documented cases.
 //@ func (*BaseFailurePolicy).IsFailure
+//@   props C01
 //@   purecalls
 //@   requires p != nil
 //@   requires forall j int :: 0 <= j && j < len(p.failureConditions) ==> p.failureConditions[j] != nil
@@ -35,6 +36,7 @@ package policy
 //@   modifies nothing
 
 //@ func (*BaseAbortablePolicy).IsAbortable
+//@   props C01
 //@   purecalls
 //@   requires c != nil
 //@   requires forall j int :: 0 <= j && j < len(c.abortConditions) ==> c.abortConditions[j] != nil
@@ -48,26 +50,32 @@ package policy
 
 // The condition closures: what a registered condition computes.
 //@ func (*BaseFailurePolicy).HandleErrors$1
+//@   props C01
 //@   ensures [C12.cond.errors+C10.handles.error_condition] result == ufb("errors.Is", actualErr, t)
 //@   modifies nothing
 // (a nil target or one that is neither an interface nor an error type panics: documented, stated as a precondition)
 //@ func (*BaseFailurePolicy).HandleErrorTypes$1
+//@   props C01
 //@   requires validErrTarget(t)
 //@   ensures [C12.cond.errortypes+C10.handles.errortype_condition] result == errTypesMatch(actualErr, t)
 //@   modifies methodcalls
 //@ func (*BaseFailurePolicy).HandleResult$1
+//@   props C01
 //@   ensures [C12.cond.result+C10.handles.result_condition] result_0 == ufb("reflect.DeepEqual", r, result)
 //@   modifies nothing
 //@ func (*BaseAbortablePolicy).AbortOnErrors$1
+//@   props C01
 //@   ensures [C12.abort.errors+C02.abort.condition_bound] result_0 == ufb("errors.Is", actualErr, t)
 //@   modifies nothing
 //@ func (*BaseAbortablePolicy).AbortOnErrorTypes$1
+//@   props C01
 //@   requires validErrTarget(t)
 //@   ensures [C12.abort.errortypes+C02.abort.condition_bound] result_0 == errTypesMatch(actualErr, t)
 //@   modifies methodcalls
 
 // Registration: one condition per argument, in order, each bound to its own target; earlier conditions are kept.
 //@ func (*BaseFailurePolicy).HandleErrors
+//@   props C01
 //@   requires p != nil
 //@   builder
 //@   oldlet n0 := len(p.failureConditions)
@@ -81,6 +89,7 @@ package policy
 //@   modifies p.failureConditions, p.errorsChecked
 
 //@ func (*BaseFailurePolicy).HandleErrorTypes
+//@   props C01
 //@   builder
 //@   requires p != nil
 //@   oldlet n0 := len(p.failureConditions)
@@ -95,6 +104,7 @@ package policy
 
 // HandleResult does not touch errorsChecked: the default "any error is a failure" stays in force.
 //@ func (*BaseFailurePolicy).HandleResult
+//@   props C01
 //@   builder
 //@   requires p != nil
 //@   oldlet n0 := len(p.failureConditions)
@@ -103,6 +113,7 @@ package policy
 //@   modifies p.failureConditions
 
 //@ func (*BaseFailurePolicy).HandleIf
+//@   props C01
 //@   builder
 //@   requires p != nil
 //@   oldlet n0 := len(p.failureConditions)
@@ -111,6 +122,7 @@ package policy
 //@   modifies p.failureConditions, p.errorsChecked
 
 //@ func (*BaseAbortablePolicy).AbortOnErrors
+//@   props C01
 //@   builder
 //@   requires c != nil
 //@   oldlet n0 := len(c.abortConditions)
@@ -123,6 +135,7 @@ package policy
 //@   modifies c.abortConditions
 
 //@ func (*BaseAbortablePolicy).AbortOnErrorTypes
+//@   props C01
 //@   builder
 //@   requires c != nil
 //@   oldlet n0 := len(c.abortConditions)
@@ -134,9 +147,11 @@ package policy
 //@   modifies c.abortConditions
 
 //@ func (*BaseAbortablePolicy).AbortOnResult$1
+//@   props C01
 //@   ensures [C12.abort.result] result_0 == ufb("reflect.DeepEqual", r, result)
 //@   modifies nothing
 //@ func (*BaseAbortablePolicy).AbortOnResult
+//@   props C01
 //@   builder
 //@   requires c != nil
 //@   oldlet n0 := len(c.abortConditions)
@@ -145,11 +160,13 @@ package policy
 
 // AbortIf wraps the predicate: the registered closure returns exactly what the predicate returns.
 //@ func (*BaseAbortablePolicy).AbortIf$1
+//@   props C01
 //@   purecalls
 //@   requires predicate != nil
 //@   ensures [C12.abort.if] result_0 == appb(predicate, result, err)
 //@   modifies nothing
 //@ func (*BaseAbortablePolicy).AbortIf
+//@   props C01
 //@   builder
 //@   requires c != nil
 //@   oldlet n0 := len(c.abortConditions)
@@ -186,6 +203,7 @@ package policy
 //@   modifies calls(e.Executor.IsFailure), calls(e.Executor.OnFailure), calls(e.Executor.OnSuccess)
 
 //@ func (*BaseExecutor).IsFailure
+//@   props C01
 //@   purecalls
 //@   requires e != nil
 //@   requires e.BaseFailurePolicy != nil ==> (forall j int :: 0 <= j && j < len(e.failureConditions) ==> e.failureConditions[j] != nil)
@@ -198,7 +216,7 @@ package policy
 //@   beforecall e.onSuccess: assert [C14.user_callback_gets_copy] userCopy(callarg_0.ExecutionAttempt)
 //@   requires e != nil && exec != nil
 //@   let has := e.BaseFailurePolicy != nil && e.onSuccess != nil
-//@   ensures [C16.base.onsuccess] has ==> ncalls(e.onSuccess) == 1 && arg(e.onSuccess, 1, 0) == ret(exec.CopyWithResult, 1) && ncalls(exec.CopyWithResult) == 1 && arg(exec.CopyWithResult, 1, 0) == result
+//@   ensures [C16.base.onsuccess+C17.listener_sees_the_result_it_is_about] has ==> ncalls(e.onSuccess) == 1 && arg(e.onSuccess, 1, 0) == ret(exec.CopyWithResult, 1) && ncalls(exec.CopyWithResult) == 1 && arg(exec.CopyWithResult, 1, 0) == result
 //@   ensures [C16.base.onsuccess.none] !has ==> ncalls(exec.CopyWithResult) == 0
 //@   havoc
 //@   modifies calls(e.onSuccess), calls(exec.CopyWithResult)
@@ -207,7 +225,7 @@ package policy
 //@   beforecall e.onFailure: assert [C14.user_callback_gets_copy] userCopy(callarg_0.ExecutionAttempt)
 //@   requires e != nil && exec != nil
 //@   let has := e.BaseFailurePolicy != nil && e.onFailure != nil
-//@   ensures [C16.base.onfailure] has ==> ncalls(e.onFailure) == 1 && arg(e.onFailure, 1, 0) == ret(exec.CopyWithResult, 1) && ncalls(exec.CopyWithResult) == 1 && arg(exec.CopyWithResult, 1, 0) == result
+//@   ensures [C16.base.onfailure+C17.listener_sees_the_result_it_is_about] has ==> ncalls(e.onFailure) == 1 && arg(e.onFailure, 1, 0) == ret(exec.CopyWithResult, 1) && ncalls(exec.CopyWithResult) == 1 && arg(exec.CopyWithResult, 1, 0) == result
 //@   ensures [C16.base.onfailure.none] !has ==> ncalls(exec.CopyWithResult) == 0
 //@   ensures [C01.base.onfailure.identity] result_0 == result
 //@   havoc
